@@ -247,7 +247,11 @@ func extractC16() *lean {
 
 	// wipeOnSeedChange condition, and whether updateService returns when the wipe happened
 	var wipeCond []string
-	if wd := funcDecl(store, "wipeOnSeedChange"); wd != nil {
+	wipeFn := "wipeIfSeedChanged" // the function that holds the wipe condition (wipeOnSeedChange wraps it since 7847ccc)
+	if funcDecl(store, wipeFn) == nil {
+		wipeFn = "wipeOnSeedChange"
+	}
+	if wd := funcDecl(store, wipeFn); wd != nil {
 		ast.Inspect(wd.Body, func(n ast.Node) bool {
 			if i, ok := n.(*ast.IfStmt); ok && strings.Contains(exprString(i.Cond), "Seed") {
 				wipeCond = append(wipeCond, exprString(i.Cond))
@@ -267,7 +271,7 @@ func extractC16() *lean {
 			switch x := st.(type) {
 			case *ast.AssignStmt:
 				if len(x.Rhs) == 1 {
-					if c, ok := x.Rhs[0].(*ast.CallExpr); ok && strings.HasSuffix(exprString(c.Fun), "wipeOnSeedChange") && len(x.Lhs) == 2 {
+					if c, ok := x.Rhs[0].(*ast.CallExpr); ok && strings.Contains(exprString(c.Fun), "store.wipe") && len(x.Lhs) == 2 {
 						wipedVar = exprString(x.Lhs[0])
 					}
 				}
@@ -283,7 +287,7 @@ func extractC16() *lean {
 			}
 		}
 		var pcs []pc
-		for _, c := range []string{"store.getTimestamp", "client.Get", "store.wipeOnSeedChange", "store.exists", "store.add", "u.verifier", "store.updateValidated"} {
+		for _, c := range []string{"store.getTimestamp", "client.Get", "store.wipeOnSeedChange", "store.wipeIfSeedChanged", "store.exists", "store.add", "u.verifier", "store.updateValidated"} {
 			if p := c16CallPos(upd, c); p >= 0 {
 				pcs = append(pcs, pc{c, p})
 			}
